@@ -711,10 +711,11 @@ def run_exec(ctx, pid):
         kids = res.pop('kids')
         i    = res['scn']
         take(res)
-        per  = max(1, len(kids) // 12)
+        per  = max(1, len(kids) // (12 if ctx.quick else 48))
         chunks = [kids[k:k + per] for k in range(0, len(kids), per)]
         for ch in chunks:
-            jobs.append((i, ch, max(1, cap // len(chunks))))
+            jobs.append((i, ch, cap if not ctx.quick
+                                else max(1, cap // len(chunks))))
     # big subtrees (early deviations) first
     jobs.sort(key=lambda j: -len(j[1][0]) if j[1] else 0)
     for res in seams.pmap(_job, jobs, ctx.workers):
